@@ -235,10 +235,21 @@ class Case:
             w.observe()
             self.seen = len(self.p.frames)
             self.pre_ready_routing_check()
-            for letter in self.script:
+            i = 0
+            while i < len(self.script):
                 if self.state in ("closed", "unspecified", "done"):
                     break
-                self.step(letter)
+                letter = self.script[i]
+                # (the second of a joined pair is one whose handling is specified in whatever state the first leaves:
+                # a request, a watchdog message or an application answer - a second CE message or a disconnect
+                # message is unspecified or another property's subject, and would make the pair unjudgeable)
+                if letter.endswith("+") and i + 1 < len(self.script) and not letter.startswith("ADV") and \
+                        self.script[i + 1].rstrip("+").partition("~")[0] in ("REQ", "DWR", "DWA", "ANS"):
+                    self.step_joined(letter[:-1], self.script[i + 1].rstrip("+"))
+                    i += 2
+                    continue
+                self.step(letter.rstrip("+"))
+                i += 1
         finally:
             w.teardown()
 
@@ -309,6 +320,58 @@ class Case:
         self.judge(letter, ids, frames, deliv, closed)
         self.transitions.add((st0, letter.rstrip("0123456789") if letter.startswith("ADV") else
                               ("CERx" if letter.startswith("CERx") else letter), self.state))
+        if self.state in ("await_cer", "await_cea", "rejected"):
+            self.pre_ready_routing_check()
+
+    def step_joined(self, l1, l2):
+        """Two messages in one write: the node meets both in the same read. Each is judged as if it had come alone, in
+        order - the second against the state the first has left - with the node's frames and the deliveries attributed
+        by their identifiers."""
+        h, w = self.h, self.w
+        st0 = self.state
+        l1, _, m1 = l1.partition("~")
+        l2, _, m2 = l2.partition("~")
+        real = self.p
+        buf = []
+
+        class _Collect:
+            @staticmethod
+            def send(data, label=None):
+                buf.append(bytes(data))
+        self.p = _Collect
+        try:
+            ids1 = self.send_letter(l1)
+            ids2 = self.send_letter(l2)
+        finally:
+            self.p = real
+        self.p.send(b"".join(buf), l1 + "+" + l2)
+        self.run.cov["letters_joined_in_one_write"] = self.run.cov.get("letters_joined_in_one_write", 0) + 1
+        h.settle()
+        ev = w.observe()["events"]
+        frames = self.p.frames[self.seen:]
+        self.seen = len(self.p.frames)
+        closed = self.p.node_sock.closed
+        deliv = self.deliveries(ev)
+        cer_ids = getattr(self, "cer_ids", None)
+        mine = lambda f, ids, l: (f.h.hbh, f.h.e2e) == (cer_ids if l.startswith("CEA") and cer_ids else ids)  # noqa: E731
+        f1 = [f for f in frames if mine(f, ids1, l1)]
+        f2 = [f for f in frames if f not in f1]
+        d1 = [e for e in deliv if (e["hbh"], e["e2e"]) == ids1]
+        d2 = [e for e in deliv if e not in d1]
+        self.trace.append((l1 + "+" + l2, st0, [repr(f) for f in frames], len(deliv), closed))
+        # the first: whether the connection is closed is only known for both together
+        will_close = closed and l1 in ("CERu", "CEA3", "CEA5")
+        self.judge(l1, ids1, f1, d1, will_close)
+        self.transitions.add((st0, "CERx" if l1.startswith("CERx") else l1, self.state))
+        if self.state in ("closed", "unspecified", "done"):
+            # what follows a message that ends the connection is not answered, not delivered
+            if self.state == "closed" and (f2 or d2):
+                self.witness(f"gate.served_after_failed_exchange.{l2}",
+                             {"first": l1, "frames": [repr(f) for f in f2], "delivered": len(d2)})
+            return
+        st1 = self.state
+        self.judge(l2, ids2, f2, d2, closed)
+        self.transitions.add((st1, "CERx" if l2.startswith("CERx") else l2, self.state))
         if self.state in ("await_cer", "await_cea", "rejected"):
             self.pre_ready_routing_check()
 
@@ -579,6 +642,8 @@ def run_shard(spec):
                     l = "ADV" + str(rng.choice([1, 1, 2, 3, 4, 5, 7, 10]))
                 elif l != "ADV" and rng.random() < 0.15:
                     l += rng.choice(["~L", "~S", "~LS"])
+                elif l != "ADV" and rng.random() < 0.2:
+                    l += "+"        # written together with the next letter: one read
                 script.append(l)
             run.one(rng.choice(cfgs), rng.choice(["in", "out", "in", "out", "in+ready"]), script)
     elif spec["kind"] == "apps":
@@ -613,6 +678,15 @@ def run_shard(spec):
                         run.one(cfg, direction, (l + mod, ce, "REQ", "DWR"))
                         run.one(cfg, direction, (ce + mod, l + mod, "REQ" + mod, "DWR" + mod))
                         run.cov["transport_cases"] = run.cov.get("transport_cases", 0) + 2
+        # directed: the message that completes (or fails) the exchange and the next one in the same read
+        for cfg in cfgs[:4]:
+            for direction in ("in", "out"):
+                firsts = ("CERk", "CERu", "CERn", "CERr") if direction == "in" else ("CEA2", "CEA3", "CEA5")
+                for a in firsts:
+                    for b in ("REQ", "DWR", "ANS", "DWA"):
+                        run.one(cfg, direction, (a + "+", b, "DWR", "REQ"))
+                        run.one(cfg, direction, ("DWR+", a, b + "+", "REQ"))
+                        run.cov["joined_cases"] = run.cov.get("joined_cases", 0) + 2
         # directed timing: ignored traffic just before the deadline, advance to exactly / past the timeout
         for cfg in cfgs:
             for direction in ("in", "out"):
